@@ -1,5 +1,6 @@
 import DimodModel.SampleSet
 import DimodModel.SampleSetMore
+import DimodModel.SamplesObject
 import DimodModel.AsSamplesDispatch
 import DimodModel.Wire
 open Wire SSM
@@ -287,6 +288,11 @@ def step (regs : Regs) (line : String) : Regs × String :=
   | ["samples", r, n, by_] => match getSS regs r, parseOptInt? n, parseKey? by_ with
     | some s, some n, some k => (regs, match s.samplesView n k with
       | some rows => "ok " ++ listOr "|" (listOr "," showRat) rows
+      | none => "err")
+    | _, _, _ => (regs, "bad-op")
+  | ["getmulti", r, rows, cols] => match getSS regs r, (splitOr "," rows).mapM (·.toNat?), parseLabels? cols with
+    | some s, some rows, some cols => (regs, match s.getMulti rows cols with
+      | some out => s!"ok {out.length}x{cols.length} " ++ listOr "|" (listOr "," showRat) out
       | none => "err")
     | _, _, _ => (regs, "bad-op")
   | ["first", r] => match getSS regs r with
